@@ -143,7 +143,7 @@ def rk_step_unit(prop="C03"):
     c.drop_where += ["R"]
     c.extra = list(c.extra) + [(".row_iter()", ".rows.iter()", "R26-matrix-rows")]
     u = Unit(prop, "rk_step", preludes=("real", "stdx", "ivp", "rkm", "rkh"), cfg=c)
-    u.timeout = 240
+    u.timeout = 600
     u.item("src/lib.rs", "enum", "DimensionError")
     u.item("src/ivp.rs", "enum", "IVPError")
     u.item("src/ivp.rs", "enum", "IVPStatus")
@@ -553,7 +553,7 @@ def adams_solver_unit(prop="C03"):
     u = Unit(prop, "adams_solver", preludes=("real", "stdx", "ivp", "rkm", "deque"), cfg=c)
     u.crate_attrs = ["#![feature(allocator_api)]"]
     u.rlimit = 300
-    u.timeout = 400
+    u.timeout = 900
     u.spec("use std::collections::VecDeque;")
     u.item("src/lib.rs", "enum", "DimensionError")
     u.item("src/ivp.rs", "enum", "IVPError")
@@ -868,7 +868,7 @@ def bdf_solver_unit(prop="C03"):
     u = Unit(prop, "bdf_solver", preludes=("real", "stdx", "ivp", "rkm", "deque", "dmx"), cfg=c)
     u.crate_attrs = ["#![feature(allocator_api)]"]
     u.rlimit = 100
-    u.timeout = 400
+    u.timeout = 900
     u.spec("use std::collections::VecDeque;")
     u.item("src/lib.rs", "enum", "DimensionError")
     u.item("src/ivp.rs", "enum", "IVPError")
